@@ -156,10 +156,10 @@ def outputs(sim, df=None):
     return {"rows": rows, "events": ev, "tasks": tasks, "task_order": order}
 
 
-def run_spec(spec, listeners=(), until=None, resume=None, max_steps=None):
+def run_spec(spec, listeners=(), until=None, resume=None, max_steps=None, env=None):
     """Run `spec` on the real code.  Returns a record dict; never raises for
     exceptions of the simulation itself (they are recorded)."""
-    h = SimHandle(spec)
+    h = SimHandle(spec, env=env)
     tr = tracer_mod.Tracer()
     for l in listeners:
         l.attach(h, tr)
